@@ -66,10 +66,9 @@ def rule_one_dict(rep, rule="X-one-dict"):
 
 
 def run(rep, tier):
-    rep.rule("C-esc", "every double quote inside a name or label is doubled (5 emit sites through escapeQuotes)")
-    rep.rule("C-size", "every declared size is len(X) and the following loop emits one item per element of X")
-    rep.rule("C-order", "slot/key order equals Praat's format (short: positional; long: key sequence)")
-    rep.rule("C-exact / C-numslot", "numbers are written exactly: repr or the compared integer, every numeric slot through numToStr")
+    rep.rule("C-esc", "utils.escapeQuotes, interpreted on exemplar texts, doubles every double quote and changes nothing else (W-doc decides that every written payload passes through it)")
+    rep.rule("C-order-long", "the long form's comment text carries Praat's keys in the order of the format (cosmetic for Praat, relied on by regex-based readers such as praatio's own)")
+    rep.rule("C-exact", "numToStr writes numbers exactly: repr or the compared integer, tolerance <= 1e-14 (W-doc decides that every written number is such a numeral)")
     rep.rule("C-keys", "JSON keys and class strings equal the README schemas; plain json is a key bijection of textgrid_json minus per-tier spans")
     rep.rule("X-one-dict", "one prepared dictionary is serialised by all four format branches, dispatch exhaustive")
     rep.rule("T10 partition", "with blank filling on, the prepared interval tiers partition [xmin, xmax] (abstract interpretation, shared with C04)")
@@ -77,12 +76,9 @@ def run(rep, tier):
     rep.not_decided.append("effect of sub-threshold absorption on the partition beyond what C04 decides")
     rep.rule("W-doc", "both text emitters interpreted on generic textgrids (symbolic times, labels and names): an independent reader written from Praat's text-file specification (free-standing numbers, quoted strings with doubled quotes, flags; all else comment) recovers every name, class, span, declared size, time and label in order")
     R.rule_written_document(rep, tier)
-    R.rule_escape_emit(rep)
-    R.rule_sizes(rep)
-    R.rule_short_order(rep)
+    R.rule_escape_function(rep)
     rule_long_order(rep)
     R.rule_exact_formatter(rep)
-    R.rule_numeric_slots(rep)
     R.rule_json_protocol(rep)
     rule_one_dict(rep)
     for k in (0, 1, 2):
